@@ -346,7 +346,7 @@ pub fn gen(tier: &str, seed: u64, out: &mut dyn Write) {
     }
     let mut rng = Rng::new(seed);
     // 2. random names, boundary-directed lengths, call-number closures and empty taken-sets
-    let n = if thorough { 400_000 } else { 24_000 };
+    let n = if thorough { 150_000 } else { 24_000 };
     for _ in 0..n {
         let name = random_name(&mut rng);
         let (pre, suf) = if rng.chance(1, 40) {
@@ -359,7 +359,7 @@ pub fn gen(tier: &str, seed: u64, out: &mut dyn Write) {
         emit(out, &name, pre, suf, &mode);
     }
     // 3. case-insensitive collisions between two different user names
-    let n = if thorough { 60_000 } else { 4_000 };
+    let n = if thorough { 30_000 } else { 4_000 };
     for _ in 0..n {
         let name = random_name(&mut rng);
         let (pre, suf) = AFFIXES[rng.below(2)];
@@ -378,7 +378,7 @@ pub fn gen(tier: &str, seed: u64, out: &mut dyn Write) {
         }
     }
     // 4. histories: 0, 1, 2, .., 98, 99, 100 clashes from taken-sets built out of earlier results
-    let n = if thorough { 300 } else { 24 };
+    let n = if thorough { 120 } else { 24 };
     for i in 0..n {
         let name = random_name(&mut rng);
         let (pre, suf) = AFFIXES[i % 2];
